@@ -485,6 +485,16 @@ theorem kth_body_independent_of_prefix (d : Dec I) (pre post : List (Option Str 
 example : readSeqFrom toy .none [(some (lit "gzip"), [[0x1f, 0x8b, 1, 65, 0]]), (none, [[104, 105]])]
     = [.ok [65], .ok [104, 105]] := by decide
 
+/-- `--ignore-length` never changes how a chunked body is read: the chunk-size
+lines and CRLFs are consumed by the chunk reader, not handed to the decoder. -/
+theorem ignore_length_keeps_chunked (ignoreLength lengthParses : Bool) :
+    effectiveFraming ignoreLength lengthParses .chunked = .chunked := rfl
+
+/-- the only framing `ignore_length` / an unparseable length can change is `length`, and only to `close` -/
+theorem effective_framing_cases (il lp : Bool) (f : Framing) :
+    effectiveFraming il lp f = f ∨ (f = .length ∧ (il = true ∨ lp = false) ∧ effectiveFraming il lp f = .close) := by
+  cases f <;> cases il <;> cases lp <;> simp [effectiveFraming]
+
 /-- Content-Length framing hands the decoder exactly the first `n` bytes of what
 the connection delivered, in non-empty pieces — for EVERY way the network cut
 the stream into reads (an over-sending server's surplus never reaches the decoder). -/
